@@ -18,7 +18,7 @@ from vmon.libutil import monitored
 
 LEVEL = "exploration"
 SHARDS = {"quick": 16, "thorough": 16}
-MUST = ["single_packet_sources", "bigstream.reads_on_packet_borders", "schedules.cut_inside_header", "schedules.several_packets_per_delivery", "option.show_progress", "option.show_progress.socket", "option.show_progress.file", "option.show_progress.bytes", "kind.bytes_subclass", "filemoved.read-all", "filemoved.seek-end", "filemoved.other-generator", "kind.bytes", "kind.file", "kind.socket", "kind.socketpair", "kind.realfile",
+MUST = ["single_packet_sources", "bigstream.reads_on_packet_borders", "schedules.cut_inside_header", "schedules.several_packets_per_delivery", "option.show_progress", "option.show_progress.socket", "option.show_progress.file", "option.show_progress.bytes", "kind.bytes_subclass", "filemoved.read-all", "filemoved.seek-end", "filemoved.other-generator", "kind.bytes", "kind.file", "kind.socket", "kind.socketpair", "kind.realsocket.blocking-stream", "kind.realsocket.seqpacket", "kind.realsocket.datagram", "kind.realfile",
         "bigstream.packets", "via_packet_generator", "filepos.written", "filepos.partly-read", "filepos.at-end", "filepos.parsed-once", "file.update_mode", "header.all-zero"]
 RULE = ("each case = (packet list, prefix length k, source kind, read size / recv schedule); the generator is stepped "
         "with next() under a step budget and the yielded sequence compared with the packet list. Enumerated "
@@ -143,9 +143,15 @@ def _run_case(ctx, kind, pkts, stream, k, r, chunks, rng, via_def, sig, progress
                 elif how == 2:
                     src.seek(0, 2)
                 else:
+                    # framed once while it held only the first packets; the writer then appends the rest
+                    nb = len(pkts) // 2
+                    cutb = sum(k + len(p_) for p_ in pkts[:nb])
+                    src = io.BytesIO(stream[:cutb])
                     first = [bytes(x) for x in itertools.islice(P.ccsds_generator(src, **kw), len(pkts) + 1)]
-                    if first != pkts:
+                    if first != pkts[:nb]:
                         ctx.violation("file/first-pass", "first pass over a BytesIO differs from the packet list", wit)
+                    src.seek(0, 2)
+                    src.write(stream[cutb:])
         elif kind == "realfile":
             fd, tmp = tempfile.mkstemp(prefix="vmon-c02-", dir=os.environ.get("VMON_SCRATCH"))
             os.write(fd, stream)
@@ -215,6 +221,55 @@ def _run_case(ctx, kind, pkts, stream, k, r, chunks, rng, via_def, sig, progress
         if kind in ("realfile", "realfile-update") and src is not None:
             src.close()
             os.unlink(tmp)
+
+
+def real_socket_case(ctx, flavour, pkts, stream, k, rng):
+    """flavour 'blocking-stream': a blocking stream socket WITHOUT a timeout whose peer has sent every packet and keeps the
+    connection open - the N packets come out without waiting for more. 'seqpacket' / 'datagram': message-oriented sockets delivering
+    the stream in messages of at most 4096 bytes (what one default-sized recv() takes in full)."""
+    import socket
+    import threading
+    from space_packet_parser import packets as P
+    if flavour == "blocking-stream":
+        a, b = socket.socketpair()
+        b.settimeout(None)
+        msgs = [stream]
+    else:
+        a, b = socket.socketpair(socket.AF_UNIX, socket.SOCK_SEQPACKET if flavour == "seqpacket" else socket.SOCK_DGRAM)
+        b.settimeout(30)
+        msgs, pos = [], 0
+        while pos < len(stream):
+            c = rng.choice([1, 5, 6, 7, 20, 300, 4096])
+            msgs.append(stream[pos:pos + c])
+            pos += c
+    a.settimeout(30)
+    for m in msgs:
+        a.sendall(m) if flavour == "blocking-stream" else a.send(m)     # all of it is in the kernel's buffer before the framer starts
+    got, err = [], []
+
+    def consume():
+        g = P.ccsds_generator(b, skip_header_bytes=k)
+        try:
+            for _ in range(len(pkts)):
+                got.append(bytes(next(g)))
+        except BaseException as e:  # noqa: BLE001
+            err.append(e)
+
+    t = threading.Thread(target=consume, daemon=True)
+    t.start()
+    t.join(60)                      # generous watchdog: every byte was delivered before the framer started
+    hung, n_before = t.is_alive(), len(got)
+    a.close()                       # lets a blocked recv() return
+    t.join(10)
+    b.close()
+    ctx.count("evaluations")
+    ctx.count(f"kind.realsocket.{flavour}")
+    wit = {"flavour": flavour, "k": k, "n_packets": len(pkts), "stream_len": len(stream), "messages": [len(m) for m in msgs][:40]}
+    if hung:
+        ctx.violation(f"socket/{flavour}/blocked-although-delivered", f"{n_before} of {len(pkts)} fully delivered packets came out of a {flavour} socket whose peer "
+                      "keeps the connection open; the framer was still waiting after 60 s", wit)
+    elif err or got != pkts:
+        ctx.violation(f"socket/{flavour}/sequence", f"{len(got)} packets / {err[:1]!r} from a {flavour} socket, expected the {len(pkts)} sent", wit)
 
 
 def rclass(r, n):
@@ -336,6 +391,15 @@ def run(ctx):
             sizes = [rng.randrange(1, 40) for _ in range(len(stream) // 10 + 2)]
             run_case(ctx, "socketpair", pkts, stream, k, r=rng.choice([None, 1, 7, 4096]), chunks=sizes,
                      sig=("socketpair", "k" + str(k)))
+    # ---- 3a. real sockets: blocking without a timeout (peer keeps the connection open), message-oriented ---------------------
+    for trial in range(ctx.size(24, 600)):
+        item += 1
+        if not ctx.mine(item):
+            continue
+        k = (0, 3)[trial % 2]
+        pkts = [mkpacket(rng, rng.choice([1, 2, 7, 40, 300])) for _ in range(rng.randrange(1, 8))]
+        stream = b"".join(bytes(0x80 | rng.getrandbits(7) for _ in range(k)) + p for p in pkts)
+        real_socket_case(ctx, ("blocking-stream", "seqpacket", "datagram")[(trial // 2) % 3], pkts, stream, k, rng)
     # ---- 3b. packets whose whole primary header is zero (APID 0, counts 0, one data byte) anywhere in a stream ---------------
     for trial in range(12):
         item += 1
